@@ -37,16 +37,8 @@ Definition traversal_path (p : text) : result (list text) :=
   if is_ascii p then traversal_path_info (Percent.unquote p) else Exc UnicodeEncodeError.
 
 (* ----------------------------------------------------- the traverser *)
-Inductive mval := MStr (t : text) | MTuple (l : list text).
-Record matchdict := mkMd { md_traverse : option mval; md_subpath : option mval }.
-Record request := mkReq {
-  q_path_info : option text;        (* environ['PATH_INFO'] (WSGI latin-1 text); None = key absent *)
-  q_matchdict : option matchdict;   (* request.matchdict *)
-  q_vroot : option text }.          (* environ['HTTP_X_VHM_ROOT'] *)
-
+(* [mval], [matchdict], [request], [mval_falsy] live in Model/C02_base.v (shared with the regenerated preamble) *)
 Definition slash_text : text := [slash].
-Definition mval_falsy (v : mval) : bool :=
-  match v with MStr [] => true | MTuple [] => true | _ => false end.
 
 (* path and subpath as computed from the match dictionary / PATH_INFO *)
 Definition path_and_subpath (q : request) : result (text * list text) :=
@@ -114,6 +106,16 @@ Definition vroot_part (q : request) (path : text) : result (list text * text * Z
   | None => Ok ([], path, vroot_idx_absent)
   end.
 
+(* the statements of __call__ BEFORE `root = self.root`, as a function to the five variables that are live
+   after them: (vpath, path, subpath, vroot_tuple, vroot_idx) -- the reference for the regenerated
+   gen_call_preamble of Gen/Facts_C02.v *)
+Definition call_preamble (q : request) : result (text * text * list text * list text * Z) :=
+  rlet ps := path_and_subpath q in
+  let '(path, subpath) := ps in
+  rlet vr := vroot_part q path in
+  let '(vroot_tuple, vpath, vroot_idx) := vr in
+  Ok (vpath, path, subpath, vroot_tuple, vroot_idx).
+
 (* ResourceTreeTraverser(root).__call__(request); [root] carries its own
    position.  [m] says how the source computes vpath_tuple (a regenerated fact). *)
 Definition traverser_call_mode (m : vpath_mode) (root : rnode) (q : request) : result tdict :=
@@ -145,6 +147,17 @@ Definition call_tail (m : vpath_mode) (vpath path : text) (subpath vroot_tuple :
                        | VSeparate => vroot_tuple ++ split_path_info path
                        end in
     loop vpath_tuple subpath vroot_tuple vroot_idx root root root 0 vpath_tuple.
+
+(* ----------------------------------------------------- find_root *)
+(* find_root(resource): the first member of the lineage whose __parent__ is None (the resource itself when there
+   is none) -- the reference for the regenerated gen_find_root_c02 (C07 has its own translation, gen_find_root) *)
+Fixpoint first_parentless (l : list rnode) (dflt : rnode) : rnode :=
+  match l with
+  | [] => dflt
+  | x :: r => if parent_is_none x then x else first_parentless r dflt
+  end.
+Definition find_root_walk (tree : res) (resource : rnode) : rnode :=
+  first_parentless (lineage_of tree resource) resource.
 
 (* ----------------------------------------------------- traverse() *)
 Inductive api_path := PStr (t : text) | PTuple (l : list text).
